@@ -4,6 +4,7 @@ import (
 	"database/sql"
 	"fmt"
 	"reflect"
+	"sort"
 	"strings"
 
 	"verif/kernel"
@@ -48,7 +49,9 @@ func (h *hist) exec(op Op) {
 		if h.faulted() || !h.judgeErr(name, err) {
 			return
 		}
-		h.compareSet(name, t, outs[0], t.rows)
+		if h.compareSet(name, t, outs[0], t.rows) {
+			h.checkHelpers(t, outs[0])
+		}
 		h.out.Keys = append(h.out.Keys, "@call:selectall/"+t.Name)
 	case "delete":
 		if t.Primary {
@@ -388,32 +391,77 @@ func (h *hist) byForeignKey(t *tinfo, g *gen, op Op, del bool) {
 	h.out.Keys = append(h.out.Keys, "@call:"+strings.ToLower(verb)+"byfk/"+t.Name+"."+c.Field)
 }
 
-// uniqueFuncs lists the generated single-row lookups of a table: unique
-// foreign keys (Select<T>By<F>) and other unique column sets
-// (Select<T>By<A>And<B>).
-func (h *hist) uniqueLookups(t *tinfo) [][]string {
-	var out [][]string
-	for _, u := range t.Uniques {
-		out = append(out, u)
+// segment splits "AAndBAndC" into known field names.
+func segment(rest string, fields map[string]bool) []string {
+	if rest == "" {
+		return []string{}
 	}
-	return out
+	for f := range fields {
+		if rest == f {
+			return []string{f}
+		}
+	}
+	// try every field as the first component (longest first for determinism)
+	var names []string
+	for f := range fields {
+		names = append(names, f)
+	}
+	sort.Slice(names, func(i, j int) bool {
+		if len(names[i]) != len(names[j]) {
+			return len(names[i]) > len(names[j])
+		}
+		return names[i] < names[j]
+	})
+	for _, f := range names {
+		if strings.HasPrefix(rest, f+"And") {
+			if tail := segment(rest[len(f)+3:], fields); tail != nil {
+				return append([]string{f}, tail...)
+			}
+		}
+	}
+	return nil
+}
+
+// lookups discovers every generated single-row lookup Select<T>By<A>[And<B>..]
+// (result: item, found, err) of a table, whatever the harness expects to exist.
+func (h *hist) lookups(t *tinfo) (names []string, fields [][]string) {
+	cols := map[string]bool{"Id": t.Primary}
+	for _, c := range t.Columns {
+		cols[c.Field] = true
+	}
+	prefix := "Select" + t.Name + "By"
+	var all []string
+	for n := range h.prog.Funcs {
+		all = append(all, n)
+	}
+	sort.Strings(all)
+	for _, n := range all {
+		if !strings.HasPrefix(n, prefix) {
+			continue
+		}
+		f := reflect.TypeOf(h.prog.Funcs[n])
+		if f.Kind() != reflect.Func || f.NumOut() != 3 || f.Out(1).Kind() != reflect.Bool {
+			continue
+		}
+		fs := segment(strings.TrimPrefix(n, prefix), cols)
+		if fs == nil || len(fs) != f.NumIn()-1 {
+			continue
+		}
+		names = append(names, n)
+		fields = append(fields, fs)
+	}
+	return names, fields
 }
 
 func (h *hist) byUnique(t *tinfo, g *gen, op Op) {
-	us := h.uniqueLookups(t)
-	if len(us) == 0 {
-		h.out.Probe("skipped:no unique constraint")
+	names, fieldSets := h.lookups(t)
+	if len(names) == 0 {
+		h.out.Probe("skipped:no single-row lookup generated")
 		return
 	}
-	u := us[op.Arg%len(us)]
-	name := "Select" + t.Name + "By" + strings.Join(u, "And")
-	f, ok := h.fn(name)
-	if !ok {
-		// unique sets made of several foreign keys or a primary key of a link
-		// table get no lookup function: nothing to drive
-		h.out.Probe("skipped:no lookup generated for " + strings.Join(u, ","))
-		return
-	}
+	k := op.Arg % len(names)
+	name, u := names[k], fieldSets[k]
+	f := h.mustFn(name)
 	row, _, ok := h.pick(t, op.Pick)
 	if !ok {
 		h.out.Probe("skipped:no live row")
@@ -436,6 +484,19 @@ func (h *hist) byUnique(t *tinfo, g *gen, op Op) {
 		}
 		args = append(args, a)
 	}
+	// the rows of the model carrying this key
+	var matching []reflect.Value
+	for _, r := range t.rows {
+		same := true
+		for _, fld := range u {
+			if !equalish(r.FieldByName(fld), row.FieldByName(fld)) {
+				same = false
+			}
+		}
+		if same {
+			matching = append(matching, r)
+		}
+	}
 	wantFound := true
 	if op.Miss {
 		// perturb the first component so that nothing matches
@@ -451,10 +512,15 @@ func (h *hist) byUnique(t *tinfo, g *gen, op Op) {
 		}
 		args[1] = n
 		wantFound = false
+		matching = nil
 	}
 	outs, err := h.call(name, f, args...)
 	h.note("%s(...) -> err=%v", name, err)
 	if h.faulted() || !h.judgeErr(name, err) {
+		return
+	}
+	if len(matching) > 1 {
+		h.fail("unique_lookup_wrong", "%s is a single-row lookup, but the schema lets %d rows share the key (%s): it cannot return exactly the matching rows", name, len(matching), strings.Join(u, ", "))
 		return
 	}
 	found := outs[1].Bool()
@@ -467,6 +533,52 @@ func (h *hist) byUnique(t *tinfo, g *gen, op Op) {
 		return
 	}
 	h.out.Keys = append(h.out.Keys, "@call:unique/"+t.Name+"."+strings.Join(u, "+"))
+}
+
+// checkHelpers exercises the in-memory helpers of a collection returned by
+// SelectAll<T>s: IDs() and the By<F>() groupings must not lose rows.
+func (h *hist) checkHelpers(t *tinfo, coll reflect.Value) {
+	n := coll.Len()
+	prefix := t.Name + "s."
+	var all []string
+	for name := range h.prog.Funcs {
+		if strings.HasPrefix(name, prefix) {
+			all = append(all, name)
+		}
+	}
+	sort.Strings(all)
+	for _, name := range all {
+		f := reflect.ValueOf(h.prog.Funcs[name])
+		if f.Type().NumIn() != 1 || f.Type().NumOut() != 1 || !coll.Type().AssignableTo(f.Type().In(0)) {
+			continue
+		}
+		res := f.Call([]reflect.Value{coll})[0]
+		h.out.Steps++
+		method := strings.TrimPrefix(name, prefix)
+		switch {
+		case res.Kind() == reflect.Slice:
+			if res.Len() != n {
+				h.fail("collection_helper_loses_rows", "%s() returned %d entries for a collection of %d rows", name, res.Len(), n)
+				return
+			}
+		case res.Kind() == reflect.Map && strings.HasPrefix(method, "By"):
+			total := 0
+			it := res.MapRange()
+			for it.Next() {
+				v := it.Value()
+				if v.Kind() == reflect.Map || v.Kind() == reflect.Slice {
+					total += v.Len()
+				} else {
+					total++
+				}
+			}
+			if total != n {
+				h.fail("collection_helper_loses_rows", "%s() groups %d rows, the collection has %d: rows sharing a key collapse", name, total, n)
+				return
+			}
+		}
+		h.out.Keys = append(h.out.Keys, "@call:helper/"+name)
+	}
 }
 
 func (h *hist) byKey(t *tinfo, g *gen, op Op, del bool) {
